@@ -470,6 +470,13 @@ Extract(n, lo, hi, p, cnt, rev, alt, res) ==
         /\ SetC(n, [k \in DOMAIN c \ TakenKeys(res.ok) |-> c[k]])
   /\ Rest
 
+\* the predicate handed to retain / extract_if panicked part-way: some entries are gone, others not.  The
+\* transaction is poisoned - commit() refuses it, so the half-applied change can never be committed
+PredicatePanic(n) ==
+  /\ WOk(n, "t")
+  /\ wtx' = [wtx EXCEPT !.poisoned = TRUE]
+  /\ Rest
+
 -----------------------------------------------------------------------------
 (* Gap cursors (C18).  A cursor on table n sits in a gap of the sorted key  *)
 (* sequence: L is the set of keys before the gap.  Inserts are accepted iff *)
